@@ -341,6 +341,12 @@ class Order:
         self._yatiml_extra = _yatiml_extra
 
     @classmethod
+    def _yatiml_recognize(cls, node: yatiml.UnknownNode) -> None:
+        # the seasoned form is not what the signature says (docs:
+        # "Customising recognition")
+        node.require_mapping()
+
+    @classmethod
     def _yatiml_savorize(cls, node: yatiml.Node) -> None:
         node.dashes_to_unders_in_keys()
         node.map_attribute_to_seq('items', 'item_id', 'price')
